@@ -91,6 +91,11 @@ def _run_case(case, ctx):
         c = CassetteFile()
         nonempty_so_far = True
         for j, s in enumerate(specs):
+            if j and (len(case["id"]) + j) % 3 == 0:
+                # save / re-open between additions: a new object on a copy of the bytes, as a list, bytes or a bytearray
+                conv = (list, bytes, bytearray)[(len(case["id"]) + j) // 3 % 3]
+                c = CassetteFile(buffer=conv(c.get_buffer()))
+                ctx.mon("reopened-between-additions")
             c.add_file(G.to_coco(s))                        # M7 fires per add_file
             # the same object is listed between additions (list, add, list ...)
             if True:
